@@ -193,6 +193,9 @@ class CodeGen:
         if self.word_size < 2:
             raise CodeGenError('Word size must be at least 2 bytes', ())
 
+        if self.stack_size < 0:
+            raise CodeGenError('Stack size must not be negative', ())
+
         if ((self.stack_size + 5) * self.word_size) > self.max_signed:
             raise CodeGenError('Stack size too large', ())
 
